@@ -94,6 +94,17 @@ class P:
                     for q in run:
                         dgrams.insert(min(k, len(dgrams)), q)
                         k += rng.choice([1, 2, 4])
+        if workers == 1 and tpls:
+            # a RE-DEFINITION of a template id by a template of the SAME wire length (one element replaced, two neighbours swapped), then
+            # data for it: one datagram at a time, so that the receive buffer that carried the old definition carries the new one
+            (a, tid), (t, o) = rng.choice(list(tpls.items()))
+            t2, o2 = g.mutate_tpl(t, o, kind=rng.choice([1, 2]))
+            if o2 == o and len(g.enc_tpl(t2, o2)) == len(g.enc_tpl(t, o)) and g.min_rec_len(t2) > 4 and all(ln != 65535 for _, _, ln in t2.specs()):
+                k = rng.randrange(len(dgrams) + 1)
+                seq = [(a, g.enc_msg([g.enc_set(g.tpl_set_id(o), g.enc_tpl(t, o))])), (a, g.enc_msg([g.enc_set(g.tpl_set_id(o2), g.enc_tpl(t2, o2))]))]
+                seq += [(a, g.enc_msg([g.enc_set(tid, g.rand_record(t2)[0])])) for _ in range(3)]
+                seq += [(a, g.enc_msg([g.enc_set(g.tpl_set_id(o), g.enc_tpl(t, o))]))]      # and back, so that the rest of the history is as before
+                dgrams[k:k] = [d for d in seq if len(d[1]) <= 1400]
         if rng.random() < 0.5:
             # pool hygiene: a run of SHORT datagrams that publish nothing (every early exit of the worker), then LONG data
             (a, tid), (t, o) = rng.choice(list(tpls.items()))
